@@ -239,7 +239,7 @@ fn generate(a: &Args) -> i32 {
     // directive lines (`%…`) cut short in every way: clean end, end inside a multi-byte character, invalid bytes, with and
     // without earlier content (the external scanner reads a NUL-padded end of input as directive text: fix bfd6267)
     for head in ["", "a: 1\n...\n", "\u{feff}", "# c\n"] {
-        for dir in ["%", "%YAML", "%YAML 1.2", "%TAG ! tag:x,2000:", "%FOO bar", "%é"] {
+        for dir in ["%", "%YAML", "%YAML 1.2", "%TAG ! tag:x,2000:", "%FOO bar", "%é", "%>é%", "%a\u{feff}%b", "%x é\u{20ac}%y %z"] {
             for tail in [&b""[..], b"\xe6", b"\xe6\x97", b"\xf0\x9f\x98", b"\xff", b"\xc3\x28", b" \xe2\x82"] {
                 let mut b = head.as_bytes().to_vec();
                 b.extend_from_slice(dir.as_bytes());
